@@ -23,7 +23,7 @@ REG = dict(
          "segmentations, under ASan+UBSan+LSan. Sampling of an infinite input space: held-on-observed.",
     note="trusts lib/ref/ws6455.py (reference decoder written from the RFC) and the loopback harness; RFC rules the property does not state "
          "(RSV bits, fragmented/long control frames, UTF-8 validity) are tri-state: either outcome accepted; payloads up to 1 MiB and the "
-         "10 MiB limit boundary only in thorough",
+         "10 MiB limit boundary: 1 stream in quick, 4 in thorough",
     technique="differential runtime oracle (RFC 6455 reference decoder) + segmentation metamorphic relation + sanitizers")
 
 KEY = hashlib.sha1
@@ -35,7 +35,7 @@ def stream_rng(seed, idx):
 
 def make_stream(seed, tier, idx):
     rng = stream_rng(seed, idx)
-    if tier == "thorough" and idx < 4:
+    if idx < (4 if tier == "thorough" else 1):   # quick: one exact-limit stream (seeded defect C31-2 was missed without it)
         # the documented limit itself: a frame of exactly 10 MiB must be delivered, one byte more closes
         s = G.Stream()
         s.cls = "limit"
@@ -382,8 +382,9 @@ def run(tier, seed):
     res = vlib.Result(PROP)
     execute(res, tier, seed)
     req = list(REQUIRED)
+    req += ["streams_with_at_limit"]
     if tier == "thorough":
-        req += ["frames_payload_ge_1MiB", "seg_hdrsplit", "streams_with_at_limit"]
+        req += ["frames_payload_ge_1MiB", "seg_hdrsplit"]
     return vlib.finish(res, tier, seed, RULE, required=req,
                        assumptions=["the reference decoder lib/ref/ws6455.py is correct",
                                     "RFC rules not stated by the property (RSV bits, control-frame FIN/length, UTF-8) accept either outcome",
